@@ -45,7 +45,7 @@ for d in sorted(glob.glob('/verif/seeded/*/')):
         m = json.load(open(mj))
         if m.get('expect_detected') is False:
             continue  # kept for the record only (see meta.json: not a violation under one reading / neutralised by a fix)
-        print('seeded-' + os.path.basename(d.rstrip('/')), m['property'], os.path.join(d, 'patch.diff'))
+        print('seeded-' + os.path.basename(d.rstrip('/')), m.get('detecting_check', m['property']), os.path.join(d, 'patch.diff'))
 PY
 while read -r name prop patch; do
   case "$name" in *"$FILTER"*) run_one "$name" "$prop" "$patch";; esac
